@@ -84,6 +84,10 @@ def gen_cases(tier, seed):
                 for rat in (False, True):
                     cases.append(dict(shape=A.shape_desc([kv], [p], rat, 3, 'coded', 'coded'), unclamped=True))
                 cases.append(dict(shape=A.shape_desc([kv], [p], False, 2, 'seeded'), unclamped=True))
+    # the tall thin slice: degree up to 6, up to 12 (thorough 20) control points per direction over few knot vectors
+    from .. import util_knots as K
+    for d in K.tall_curve_shapes(tier) + K.tall_surface_shapes(tier):
+        cases.append(dict(shape=d, tall=True))
     degs = [1, 2, 3]
     for pu, pv in itertools.product(degs, degs):
         for ku in A.rep_kvs(pu, 1 if q else 2):
